@@ -30,6 +30,7 @@ func suiteConc(c *Ctx) {
 		concBloom(c, g)
 		concCMS(c, g)
 		concHLL(c, g)
+		concHLLSmall(c, g)
 		concCuckoo(c, g)
 		concCuckooRemoveStorm(c, g)
 		concTopK(c, g)
@@ -573,5 +574,54 @@ func concTopKHot(c *Ctx, g int) {
 	}
 	if len(bad) > 0 {
 		c.fail([]string{"C07", "C04"}, "conc-own-write-invisible", "TopK: "+bad[0], map[string]interface{}{"structure": "TopK", "goroutines": g, "inserts_per_goroutine": per})
+	}
+}
+
+// many short runs on fresh sketches: with only a dozen elements in a sketch a single lost update
+// (or a merge that overwrites one) almost always shows in the registers, which a long run on a
+// saturated sketch hides
+func concHLLSmall(c *Ctx, g int) {
+	if g > 8 {
+		g = 8
+	}
+	bad := ""
+	trials := 40
+	for t := 0; t < trials && bad == ""; t++ {
+		h, _ := gostatix.NewHyperLogLog(256)
+		seq, _ := gostatix.NewHyperLogLog(256)
+		var mu sync.Mutex
+		var all [][]byte
+		runWorkers(c, g, func(w int, rng *rand.Rand) {
+			var mine [][]byte
+			for i := 0; i < 3; i++ {
+				e := []byte(fmt.Sprintf("t%d-w%d-%d-%d", t, w, i, rng.Intn(1000)))
+				if i == 1 {
+					p, _ := gostatix.NewHyperLogLog(256)
+					p.Update(e)
+					if h.Merge(p) == nil {
+						mine = append(mine, e)
+					}
+				} else {
+					h.Update(e)
+					mine = append(mine, e)
+				}
+			}
+			mu.Lock()
+			all = append(all, mine...)
+			mu.Unlock()
+		})
+		for _, e := range all {
+			seq.Update(e)
+		}
+		a, _ := parseHLL(h.Export())
+		b, _ := parseHLL(seq.Export())
+		if !eqU64(a.regs(), b.regs()) {
+			bad = fmt.Sprintf("trial %d: %d goroutines, 2 updates and 1 merge each on a fresh sketch: final registers differ from the sequential application (an update or a merge was lost)", t, g)
+		}
+	}
+	c.rep.Cases++
+	c.rep.Ops["hll.small-runs"] += trials
+	if bad != "" {
+		c.fail([]string{"C07", "C06"}, "conc-final-state", "HyperLogLog: "+bad, map[string]interface{}{"structure": "HyperLogLog", "goroutines": g})
 	}
 }
